@@ -279,13 +279,15 @@ class Result:
         return f'Result({self.status}, {self.solver}, {self.secs:.2f}s)'
 
 
+SOLVER_MEM_MB = int(os.environ.get('VERIF_SOLVER_MEM_MB', '8192'))
 STATS = {'queries': 0, 'by_solver': {}, 'solver_s': 0.0, 'sat': 0, 'unsat': 0, 'unknown': 0}
 
 
 def _launch(solver, path, timeout):
     cmd = list(SOLVERS[solver])
     if solver in ('z3', 'z3new'):
-        cmd += [f'-T:{max(1, int(timeout))}', path]
+        # memory cap: an exhausted solver answers "(error out of memory)" = unknown instead of taking the machine down
+        cmd += [f'-T:{max(1, int(timeout))}', f'-memory:{SOLVER_MEM_MB}', path]
     else:
         cmd += [f'--tlimit={int(timeout * 1000)}', path]
     return subprocess.Popen(cmd, stdout=subprocess.PIPE, stderr=subprocess.PIPE, text=True)
